@@ -1,5 +1,6 @@
 (** Extraction of the executable model (ExtrOcamlBasic only; nat, N, positive stay Coq datatypes). *)
 Require Import Coq.extraction.Extraction Coq.extraction.ExtrOcamlBasic.
-Require Import MRB.Model.Types MRB.Model.Seq.
+Require Import MRB.Model.Types MRB.Model.Seq MRB.Spec.Pipe.
 Extraction Language OCaml.
-Extraction "model.ml" Seq.init Seq.step Seq.run Seq.fresh Seq.succ_idx Seq.first_clone_id.
+Extraction "model.ml" Seq.init Seq.step Seq.run Seq.fresh Seq.succ_idx Seq.first_clone_id
+  Pipe.a_init Pipe.sstep Pipe.ok_op Pipe.srun Pipe.a_avail Pipe.a_ring.
